@@ -1,0 +1,24 @@
+//go:build verif
+
+package mapdb
+
+// VerifHook is called before every acquisition of the mutex that protects the map shared by all
+// views of a mapDB (verification harness only; nil by default). The methods below shadow the
+// promoted sync.RWMutex methods of syncedKVMap when the package is built with the verif tag.
+var VerifHook func(point string)
+
+func verifYield(point string) {
+	if h := VerifHook; h != nil {
+		h(point)
+	}
+}
+
+func (s *syncedKVMap) Lock() {
+	verifYield("mapdb.map.Lock")
+	s.RWMutex.Lock()
+}
+
+func (s *syncedKVMap) RLock() {
+	verifYield("mapdb.map.RLock")
+	s.RWMutex.RLock()
+}
